@@ -369,8 +369,10 @@ class GatherIfNecessaryLoop:
         return gather_if_necessary([later(d["value"]) if d["awaitable"] else d["value"]
                                     for d in args["results_and_awaitable_results"]])
 
-    def inv_counter_is_the_number_of_awaitables_seen(results_and_awaitable_results, awaited_results_index, iteration):
-        return awaited_results_index == count_awaitables_before(results_and_awaitable_results, iteration)
+    def inv_counter_is_the_number_of_awaitables_seen(results_and_awaitable_results, carried_int_0, iteration):
+        """carried_int_0: the (only) integer the loop carries from one iteration to the next - in the code at hand
+        `awaited_results_index`; named by its role, so that renaming the local does not touch the invariant"""
+        return carried_int_0 == count_awaitables_before(results_and_awaitable_results, iteration)
 
     def post_positions_are_kept(results_and_awaitable_results, result):
         return result == item_values(results_and_awaitable_results)
